@@ -219,6 +219,10 @@ def run_check(tier, seed):
         if rng.random() < 0.5:
             cases += ["PEP " + hx(m) for m in mutations(s, rng, 1)]
     go("random_structured_versions_all_spellings_and_mutations", cases)
+    ub = ["1.0", "v2!1.0a1+local", "1!2.3rc4.post5.dev6+sk.7", "1.0.POST2", "1.0+abc.k", "1.0-1", "1.0.dev0", "1_0_alpha_1"]
+    uni = unicode_neighbours(ub, rng, 3 if tier == "quick" else 12)
+    go("unicode_neighbours_of_the_alphabet_around_and_inside_valid_versions", ["PEP " + hx(s) for s in uni])
+    correspond(run, "unicode_neighbours_zerv_check", ["CHK pep440 " + hx(s) for s in uni[::5]], **kw)
     sample = rng.sample(spelled, min(len(spelled), n // 8))
     sample += [m for s in sample[:2000] for m in mutations(s, rng, 1)]
     correspond(run, "zerv_check_format_pep440", ["CHK pep440 " + hx(s) for s in sample], **kw)
@@ -228,5 +232,7 @@ def run_check(tier, seed):
 RULE = ("requests are strings given to PEP440::from_str (and `zerv check --format pep440`); exhaustive over short strings of a 21-character "
         "alphabet incl. the case-folding look-alikes U+017F and U+212A, exhaustive over short token sequences (labels inserted as tokens), "
         "random structured versions in random spellings (case, separators, alternative labels, leading zeros, implicit numbers, v prefix) "
-        "and their single-edit mutations; every implementation answer is also judged by an independent Python reference written from the PEP; "
+        "and their single-edit mutations, every non-ASCII character whose case / compatibility form is ASCII or that is a digit, space or format character "
+        "(2769 of them, computed from unicodedata: BOM, zero-width and direction marks, digits of other scripts, full-width and mathematical letters ...) before, behind, inside and "
+        "in place of a character of valid versions; every implementation answer is also judged by an independent Python reference written from the PEP; "
         "non-trivial = accepted by the implementation")
